@@ -2624,12 +2624,226 @@ def next_to_loop(tree):
     return tree
 
 
+def private_objects(tree):
+    """X = _Cls(args) ... X.meth(a) ... X.field   (the instance of a private class of the module
+    used only through its attributes and methods, never handed on as a whole)
+      ->  _obj_Cls___init__(X__obj, args) ... _obj_Cls_meth(X__obj, a) ... X__obj.field
+    with the methods copied to module-level private helpers taking `self` first, so that the
+    helper inliner opens them; objects_to_locals() then turns `X__obj.field` into a local.
+    Nothing is changed unless every method used is of an inlinable kind."""
+    classes, class_consts = {}, {}
+    for node in tree.body:
+        if isinstance(node, ast.ClassDef) and node.name.startswith("_") \
+                and not node.name.startswith("__") and not node.bases and not node.keywords \
+                and not node.decorator_list:
+            meths, ok, consts = {}, True, {}
+            for sub in node.body:
+                if isinstance(sub, ast.Expr) and isinstance(sub.value, ast.Constant):
+                    continue
+                if isinstance(sub, ast.Assign) and len(sub.targets) == 1 \
+                        and isinstance(sub.targets[0], ast.Name):
+                    # class-level constants (and __slots__, which only restricts the fields)
+                    try:
+                        ast.literal_eval(sub.value)
+                    except (ValueError, TypeError, SyntaxError):
+                        ok = False
+                    if sub.targets[0].id != "__slots__":
+                        consts[sub.targets[0].id] = sub.value
+                    continue
+                if isinstance(sub, ast.FunctionDef) and not sub.decorator_list \
+                        and sub.args.args and sub.args.args[0].arg == "self" \
+                        and (not sub.name.startswith("__") or sub.name == "__init__"):
+                    meths[sub.name] = sub
+                else:
+                    ok = False
+            if ok and "__init__" in meths:
+                classes[node.name] = meths
+                class_consts[node.name] = consts
+    for cname in list(classes):
+        uses = [n for n in ast.walk(tree) if isinstance(n, ast.Name) and n.id == cname]
+        calls = [n for n in ast.walk(tree) if isinstance(n, ast.Call)
+                 and isinstance(n.func, ast.Name) and n.func.id == cname]
+        if len(uses) != len(calls):
+            del classes[cname]
+    if not classes:
+        return tree
+    own_methods = {id(m) for ms in classes.values() for m in ms.values()}
+    helpers_needed = {}
+
+    def hname(cname, meth):
+        return f"_obj{cname}_{meth.strip('_')}"
+    changed = False
+    for F in [n for n in ast.walk(tree) if isinstance(n, ast.FunctionDef)
+              and id(n) not in own_methods]:
+        for a in [n for n in ast.walk(F) if isinstance(n, ast.Assign)]:
+            if not (len(a.targets) == 1 and isinstance(a.targets[0], ast.Name)
+                    and isinstance(a.value, ast.Call) and isinstance(a.value.func, ast.Name)
+                    and a.value.func.id in classes):
+                continue
+            X, cname = a.targets[0].id, a.value.func.id
+            meths = classes[cname]
+            occ = [n for n in ast.walk(F) if isinstance(n, ast.Name) and n.id == X]
+            if sum(isinstance(n.ctx, ast.Store) for n in occ) != 1 \
+                    or X in [p.arg for p in F.args.args + F.args.kwonlyargs]:
+                continue
+            attrs = [n for n in ast.walk(F) if isinstance(n, ast.Attribute)
+                     and isinstance(n.value, ast.Name) and n.value.id == X]
+            if len(attrs) != len(occ) - 1:
+                continue            # the object is used as a whole somewhere
+            mcalls = [n for n in ast.walk(F) if isinstance(n, ast.Call)
+                      and isinstance(n.func, ast.Attribute) and n.func in attrs]
+            called = {c.func.attr for c in mcalls}
+            fields = {t.attr for m in meths.values() for st in ast.walk(m)
+                      if isinstance(st, (ast.Assign, ast.AugAssign, ast.AnnAssign))
+                      for t in (st.targets if isinstance(st, ast.Assign) else [st.target])
+                      if isinstance(t, ast.Attribute) and isinstance(t.value, ast.Name)
+                      and t.value.id == "self"}
+            consts = class_consts[cname]
+            other = {n.attr for n in attrs if not any(n is c.func for c in mcalls)}
+            if not called <= set(meths) or not other <= (fields | set(consts)) \
+                    or (called & fields) or (fields & set(consts)):
+                continue
+            # methods reached from the methods used (self.m(...)) must be openable as well
+            need, todo = set(), ["__init__"] + sorted(called)
+            good = True
+            while todo and good:
+                m = todo.pop()
+                if m in need:
+                    continue
+                need.add(m)
+                for c in ast.walk(meths[m]):
+                    if isinstance(c, ast.Attribute) and isinstance(c.value, ast.Name) \
+                            and c.value.id == "self" and c.attr in meths:
+                        par_is_call = any(isinstance(k, ast.Call) and k.func is c
+                                          for k in ast.walk(meths[m]))
+                        if not par_is_call:
+                            good = False
+                        todo.append(c.attr)
+                if any(isinstance(n, ast.Name) and n.id == "self"
+                       and not isinstance(getattr(n, "_p", None), ast.Attribute)
+                       for n in _mark_parents(meths[m])):
+                    good = False        # self handed on as a whole
+            if not good:
+                continue
+            copies = {}
+            for m in need:
+                h = copy.deepcopy(meths[m])
+                h.name = hname(cname, m)
+                for c in ast.walk(h):
+                    if isinstance(c, ast.Call) and isinstance(c.func, ast.Attribute) \
+                            and isinstance(c.func.value, ast.Name) \
+                            and c.func.value.id == "self" and c.func.attr in meths:
+                        c.args = [ast.Name(id="self", ctx=ast.Load())] + c.args
+                        c.func = ast.Name(id=hname(cname, c.func.attr), ctx=ast.Load())
+                if consts:
+                    h = _ConstAttr("self", consts).visit(h)
+                copies[m] = h
+            if any(_helper_kind(h)[0] not in ("proc", "expr", "tail", "multi")
+                   for h in copies.values()) or _helper_kind(copies["__init__"])[0] != "proc":
+                continue
+            for m, h in copies.items():
+                helpers_needed.setdefault(h.name, h)
+            obj = X + "__obj"
+            if consts:
+                _ConstAttr(X, consts).visit(F)
+            for n in occ:
+                n.id = obj
+            for c in mcalls:
+                c.args = [ast.Name(id=obj, ctx=ast.Load())] + c.args
+                c.func = ast.Name(id=hname(cname, c.func.attr), ctx=ast.Load())
+            init = ast.Expr(value=ast.Call(
+                func=ast.Name(id=hname(cname, "__init__"), ctx=ast.Load()),
+                args=[ast.Name(id=obj, ctx=ast.Load())] + a.value.args,
+                keywords=a.value.keywords))
+            ast.copy_location(init, a)
+            _replace_stmt(F, a, init)
+            changed = True
+    if not changed:
+        return tree
+    first = min(i for i, n in enumerate(tree.body) if isinstance(n, ast.ClassDef)
+                and n.name in classes)
+    tree.body[first:first] = list(helpers_needed.values())
+    still = {n.id for n in ast.walk(tree) if isinstance(n, ast.Name)}
+    tree.body = [n for n in tree.body if not (isinstance(n, ast.ClassDef) and n.name in classes
+                                              and n.name not in still)]
+    ast.fix_missing_locations(tree)
+    return tree
+
+
+class _ConstAttr(ast.NodeTransformer):
+    """<obj>.<class constant>  ->  the constant"""
+    def __init__(self, obj, consts):
+        self.obj, self.consts = obj, consts
+
+    def visit_Attribute(self, node):
+        if isinstance(node.value, ast.Name) and node.value.id == self.obj \
+                and node.attr in self.consts and isinstance(node.ctx, ast.Load):
+            return ast.copy_location(copy.deepcopy(self.consts[node.attr]), node)
+        return self.generic_visit(node)
+
+
+def _mark_parents(root):
+    out = []
+    for n in ast.walk(root):
+        for c in ast.iter_child_nodes(n):
+            c.__dict__["_p"] = n
+        out.append(n)
+    return out
+
+
+def _replace_stmt(root, old, new):
+    for n in ast.walk(root):
+        for field in ("body", "orelse", "finalbody"):
+            blk = getattr(n, field, None)
+            if isinstance(blk, list):
+                for i, x in enumerate(blk):
+                    if x is old:
+                        blk[i] = new
+                        return
+        if isinstance(n, ast.Try):
+            for h in n.handlers:
+                for i, x in enumerate(h.body):
+                    if x is old:
+                        h.body[i] = new
+                        return
+
+
+def objects_to_locals(tree):
+    """`X__obj.field` -> a local: `X` when the object has one field, `X__field` otherwise
+    (only when nothing else is left of the object)"""
+    for F in [n for n in ast.walk(tree) if isinstance(n, ast.FunctionDef)]:
+        objs = {n.id for n in ast.walk(F) if isinstance(n, ast.Name) and n.id.endswith("__obj")}
+        for obj in sorted(objs):
+            occ = [n for n in ast.walk(F) if isinstance(n, ast.Name) and n.id == obj]
+            attrs = [n for n in ast.walk(F) if isinstance(n, ast.Attribute)
+                     and isinstance(n.value, ast.Name) and n.value.id == obj]
+            if len(attrs) != len(occ):
+                continue
+            fields = {a.attr for a in attrs}
+            base = obj[:-len("__obj")]
+            taken = {n.id for n in ast.walk(F) if isinstance(n, ast.Name)} | \
+                    {p.arg for p in F.args.args}
+            names = {f: (base if len(fields) == 1 and base not in taken else f"{base}__{f}")
+                     for f in fields}
+
+            class T(ast.NodeTransformer):
+                def visit_Attribute(self, node):
+                    if isinstance(node.value, ast.Name) and node.value.id == obj:
+                        return ast.copy_location(ast.Name(id=names[node.attr], ctx=node.ctx),
+                                                 node)
+                    return self.generic_visit(node)
+            T().visit(F)
+    ast.fix_missing_locations(tree)
+    return tree
+
+
 def canonicalise(tree, sigs=None, pkg_methods=None):
     for n in ast.walk(tree):
         if hasattr(n, "lineno"):
             n.__dict__["_src_line"] = n.lineno
     tree = std_spellings(tree)
     tree = next_to_loop(tree)
+    tree = private_objects(tree)
     tree = module_constants(tree)
     if sigs:
         tree = _KwToPos(sigs).visit(tree)
@@ -2647,6 +2861,7 @@ def canonicalise(tree, sigs=None, pkg_methods=None):
         if not any(isinstance(n, ast.Call) and _Inliner._private(
                 _unparse(n.func).split(".")[-1]) for n in ast.walk(tree)):
             break
+    tree = objects_to_locals(tree)
     tree = _KeysNorm().visit(tree)
     tree.body = canon_block(tree.body)
     if _OPS_PASS is not None:
